@@ -18,6 +18,10 @@ DECLS = {
     'strings': ['(declare-const s String)', '(declare-fun t () (Seq Int2))', '(define-fun u () String "a")',
                 '(declare-fun fs (String) Bool)', '(declare-const rl RegLan)', '(define-fun gs ((xs (Seq Int2))) Bool true)'],
 }
+MIXED = [('(declare-const m1 (Array Int (_ BitVec 8)))', {'arithmetic', 'bv'}), ('(declare-fun m2 (Int String) (_ BitVec 4))', {'arithmetic', 'strings', 'bv'}),
+         ('(declare-const m3 (Seq Int))', {'arithmetic', 'strings'}), ('(declare-fun m4 (RoundingMode (_ BitVec 3)) Real)', {'fp', 'bv', 'arithmetic'}),
+         ('(declare-datatype M5 ((mk (fld Int) (fld2 String))))', {'datatypes', 'arithmetic', 'strings'}),
+         ('(define-fun m6 ((z Float32)) (Array Int String) ((as const (Array Int String)) ""))', {'fp', 'arithmetic', 'strings'})]
 NEUTRAL = ['(set-logic ALL)', '(declare-const p Bool)', '(assert p)', '(check-sat)', '(declare-sort U 0)', '(declare-fun q (U) Bool)']
 
 
@@ -74,7 +78,14 @@ def run(ctx):
         declared = set(t for t in all_decl if rng.random() < 0.4)
         if k % 5 == 0:
             declared = set()
-        text = ' '.join(rng.sample(NEUTRAL, 3) + [rng.choice(DECLS[t]) for t in declared])
+        parts = [rng.choice(DECLS[t]) for t in declared]
+        if k % 3 == 1:
+            # ONE command that declares something of several theories at once (and may be their only declaration)
+            mtext, mth = rng.choice(MIXED)
+            parts.append(mtext)
+            declared |= mth
+        rng.shuffle(parts)
+        text = ' '.join(rng.sample(NEUTRAL, 3) + parts)
         exprs = impl.parse(text)
         argv = [s for s, _ in seq] + ['in.smt2', 'out.smt2', 'cmd']
         try:
